@@ -89,7 +89,9 @@ def make_bank(rng, cont, enc, parens=False):
         if enc == 'utf-8' and rng.random() < 0.5:
             words += ['Жук', '日本']
     pools = gen.Pools(words=words,
-                      cats=rng.choice([['S', 'NP', 'VP'], ['S', 'NP', 'VP', 'PP', 'CNP']]),
+                      cats=rng.choice([['S', 'NP', 'VP'], ['S', 'NP', 'VP', 'PP', 'CNP'],
+                                       ['S', '1N', '2V', 'NP', "N'", 'A,B', 'A:B',
+                                        '@NX', 'VROOT']]),
                       pos=rng.choice([['NN', 'VV', 'ART'], ['NN', 'VVFIN', 'ART', '$.', 'KON'],
                                       ['NN', 'VVFIN', '$,', '$.', 'P+D',
                                        'X:Y']]))
